@@ -287,6 +287,44 @@ func appendGeneratedChainOK(p *Prog, c *Chain) (bool, string) {
 }
 
 // qualOrigin classifies the package-path argument of a jen.Qual call.
+// passesWrapUsingParam: the argument is a parameter of the calling function, and all callers of that function
+// pass Common.WrapErrorsUsing (or, again, their own such parameter) for it.
+func passesWrapUsingParam(p *Prog, cs *CallSite, arg ast.Expr, depth int) bool {
+	if depth > 3 || cs.Encl == nil {
+		return false
+	}
+	id, ok := ast.Unparen(arg).(*ast.Ident)
+	if !ok {
+		return false
+	}
+	v, ok := cs.Pkg.TypesInfo.ObjectOf(id).(*types.Var)
+	if !ok || !isParamOf(cs.Encl, v) {
+		return false
+	}
+	sig := cs.Encl.Obj.Type().(*types.Signature)
+	idx := -1
+	for i := 0; i < sig.Params().Len(); i++ {
+		if sig.Params().At(i) == v {
+			idx = i
+		}
+	}
+	n := 0
+	for _, c2 := range p.Calls() {
+		f, ok := c2.Callee.(*types.Func)
+		if !ok || f.Origin() != cs.Encl.Obj.Origin() {
+			continue
+		}
+		n++
+		if idx < 0 || idx >= len(c2.Call.Args) {
+			return false
+		}
+		if !isFieldSel(c2.Pkg.TypesInfo, c2.Call.Args[idx], modPath+"/config", "Common", "WrapErrorsUsing") && !passesWrapUsingParam(p, c2, c2.Call.Args[idx], depth+1) {
+			return false
+		}
+	}
+	return n > 0
+}
+
 func qualOrigin(p *Prog, c *Chain, arg ast.Expr) (string, bool) {
 	info := c.Pkg.TypesInfo
 	arg = ast.Unparen(arg)
@@ -349,7 +387,7 @@ func qualOrigin(p *Prog, c *Chain, arg ast.Expr) (string, bool) {
 					continue
 				}
 				n++
-				if !isFieldSel(cs.Pkg.TypesInfo, cs.Call.Args[idx], modPath+"/config", "Common", "WrapErrorsUsing") {
+				if !isFieldSel(cs.Pkg.TypesInfo, cs.Call.Args[idx], modPath+"/config", "Common", "WrapErrorsUsing") && !passesWrapUsingParam(p, cs, cs.Call.Args[idx], 0) {
 					bad = p.PosStr(cs.Call.Pos())
 				}
 			}
